@@ -469,4 +469,86 @@ def runXA (inv : CbId → EM Val) (truthy : Val → Bool) (ws : List WStmt) (ev 
   | .spawnFiltered :: .tryGatherCancel :: _, specs => callEach inv truthy ws (applicable ev specs)
   | _, _ => pure []
 
+/-! ## Entry points: `Event.__call__`, `StateMachine.send`, `BaseEngine.start` -/
+
+/-- one statement of `Event.__call__` -/
+inductive EStmt
+  /-- `machine = self._sm` -/
+  | getMachine
+  /-- `if machine is None: raise RuntimeError(…)` (an event that is not bound to an instance) -/
+  | raiseIfUnbound
+  /-- `kwargs = {k: v for k, v in kwargs.items() if k not in _event_data_kwargs}` -/
+  | stripReserved
+  /-- `trigger_data = TriggerData(machine=machine, event=self, args=args, kwargs=kwargs)` -/
+  | mkTrigger
+  /-- `machine._put_nonblocking(trigger_data)` -/
+  | put
+  /-- `result = machine._processing_loop()` -/
+  | processingLoop
+  /-- `if not isawaitable(result): return result` -/
+  | retIfPlain
+  /-- `return run_async_from_sync(result)` (runs the coroutine to its result when no loop is running, hands it to
+  the caller to await otherwise) -/
+  | retRunAsync
+deriving DecidableEq, Repr
+
+/-- one statement of `StateMachine.send` -/
+inductive SStmt
+  /-- `if event in self.__class__._events: event_instance = getattr(self, event)`
+  `else: event_instance = BoundEvent(id=event, name=event, _sm=self)` -/
+  | resolveEvent
+  /-- `result = event_instance(*args, **kwargs)` -/
+  | callEvent
+  | retIfPlain
+  | retRunAsync
+deriving DecidableEq, Repr
+
+/-- one statement of `BaseEngine.start` -/
+inductive StStmt
+  /-- `if self.sm.current_state_value is not None: return` -/
+  | returnIfState
+  /-- `trigger_data = TriggerData(machine=self.sm, event=BoundEvent("__initial__", _sm=self.sm))` -/
+  | mkActivation
+  /-- `self._activation = trigger_data` -/
+  | remember
+  /-- `self.put(trigger_data)` -/
+  | put
+deriving DecidableEq, Repr
+
+/-- meaning of an `Event.__call__` script for a bound event `e`; `proc` is `machine._processing_loop()`. The result
+of the loop is what the caller gets, directly or as the value of the coroutine. -/
+def runE (proc : EM Res) (e : EventId) : List EStmt → Option Res → EM Res
+  | [], r => pure (r.getD .none)
+  | .put :: rest, r => do enqueue e; runE proc e rest r
+  | .processingLoop :: rest, _ => do
+    let res ← proc
+    runE proc e rest (some res)
+  | .retIfPlain :: rest, r => match r with
+    | some res => pure res
+    | none => runE proc e rest r
+  | .retRunAsync :: _, r => pure (r.getD .none)
+  | _ :: rest, r => runE proc e rest r
+
+/-- meaning of a `send` script: whatever the name is — declared or not — an event bound to this machine is called -/
+def runS (callEv : EventId → EM Res) (e : EventId) : List SStmt → Option Res → EM Res
+  | [], r => pure (r.getD .none)
+  | .resolveEvent :: rest, r => runS callEv e rest r
+  | .callEvent :: rest, _ => do
+    let res ← callEv e
+    runS callEv e rest (some res)
+  | .retIfPlain :: rest, r => match r with
+    | some res => pure res
+    | none => runS callEv e rest r
+  | .retRunAsync :: _, r => pure (r.getD .none)
+
+/-- meaning of a `start` script -/
+def runStart : List StStmt → EM Unit
+  | [] => pure ()
+  | .returnIfState :: rest => do
+    let cfg ← EM.get
+    if cfg.cur.isSome then pure () else runStart rest
+  | .mkActivation :: rest => runStart rest
+  | .remember :: rest => runStart rest
+  | .put :: rest => do enqueueActivation; runStart rest
+
 end SMV.Src
